@@ -382,6 +382,40 @@ struct RecoveryObs {
     recovered: BTreeMap<usize, BTreeSet<String>>,
     probe_ok: Result<(), String>,
     panicked: Option<String>,
+    /// C07: snapshot comparisons crash state -> after init -> after probe -> after each restart,
+    /// and the append-only predicates over this recovery's slice of the I/O log
+    no_harm: Vec<String>,
+}
+
+/// Which clauses a recovery is judged by (the recoveries are the same).
+#[derive(Debug, Clone, Copy, PartialEq, Eq)]
+pub enum CrashOracle {
+    /// C06: what is served after recovery is explained by the acknowledged prefix; usable
+    Recovery,
+    /// C07: recovery never modifies, truncates or deletes blob bytes, never reuses an id
+    NoHarm,
+}
+
+fn blob_part(state: &State) -> BTreeMap<String, Vec<u8>> {
+    state.iter().filter(|(n, _)| n.ends_with(".blob")).map(|(n, c)| (n.clone(), c.clone())).collect()
+}
+
+/// Compares with the previous snapshot and moves on.
+fn no_harm_step(what: &str, snap: &mut BTreeMap<String, Vec<u8>>, dir: &Path, out: &mut Vec<String>) {
+    let now = crate::tap::snapshot_blobs(dir);
+    for v in crate::tap::snapshot_violations(snap, &now) {
+        out.push(format!("{what}: {v}"));
+    }
+    // a file that is new in the work directory carries an id above every id seen so far
+    let max_before = snap.keys().filter_map(|n| crate::tap::blob_id(Path::new(n))).max();
+    for n in now.keys().filter(|n| !n.starts_with("corrupted/") && !snap.contains_key(*n)) {
+        if let (Some(id), Some(mx)) = (crate::tap::blob_id(Path::new(n)), max_before) {
+            if id <= mx {
+                out.push(format!("{what}: new blob file {n} although id {mx} had been used"));
+            }
+        }
+    }
+    *snap = now;
 }
 
 fn judge_state(spec: &CrashSpec, cp: &CrashPoint, cfg: &WCfg, obs: &RecoveryObs, state: &State) -> Vec<Finding> {
@@ -559,16 +593,23 @@ async fn recover_one(cfg: WCfg, state: State, keys: Vec<KeyId>) -> RecoveryObs {
         recovered: BTreeMap::new(),
         probe_ok: Ok(()),
         panicked: None,
+        no_harm: Vec::new(),
     };
+    let mut snap = blob_part(&state);
+    let log_from = ctl::with_ctl(|c| c.log.borrow().len());
+    let mut ever: BTreeSet<usize> = snap.keys().filter_map(|n| crate::tap::blob_id(Path::new(n))).collect();
     let mut w: World<K4> = match World::open(dir.clone(), cfg.clone(), false).await {
         Ok(w) => w,
         Err(e) => {
             obs.init_err = Some(format!("{e:#}"));
+            no_harm_step("failed init", &mut snap, &dir, &mut obs.no_harm);
+            ctl::with_ctl(|c| obs.no_harm.extend(crate::tap::append_only_violations_in(&c.log.borrow(), log_from, usize::MAX, &mut ever)));
             world::remove_dir(&dir);
             return obs;
         }
     };
     ctl::quiesce().await;
+    no_harm_step("init", &mut snap, &dir, &mut obs.no_harm);
     for k in &keys {
         obs.keys.insert(*k, w.observe_key(*k, &[0]).await);
     }
@@ -604,6 +645,8 @@ async fn recover_one(cfg: WCfg, state: State, keys: Vec<KeyId>) -> RecoveryObs {
         }
     };
     obs.probe_ok = probe(&p1, "probe write");
+    ctl::quiesce().await;
+    no_harm_step("probe write", &mut snap, &dir, &mut obs.no_harm);
     if obs.probe_ok.is_ok() {
         for round in 0..2 {
             if round == 1 {
@@ -625,6 +668,7 @@ async fn recover_one(cfg: WCfg, state: State, keys: Vec<KeyId>) -> RecoveryObs {
                 }
                 let _ = before;
                 ctl::quiesce().await;
+                no_harm_step("restart without index files", &mut snap, &dir, &mut obs.no_harm);
                 if w.s().corrupted_blobs_count() > obs.corrupted_count {
                     obs.probe_ok = Err(format!(
                         "a blob that the recovery had accepted (or created) was quarantined by the next start: corrupted blobs {} -> {}",
@@ -654,6 +698,7 @@ async fn recover_one(cfg: WCfg, state: State, keys: Vec<KeyId>) -> RecoveryObs {
                 break;
             }
             ctl::quiesce().await;
+            no_harm_step("restart", &mut snap, &dir, &mut obs.no_harm);
             let ko = w.observe_key(9, &[]).await;
             if !matches!(ko.read, RR::Found { .. }) {
                 obs.probe_ok = Err(format!("probe record after restart {round}: {:?}", ko.read));
@@ -662,6 +707,8 @@ async fn recover_one(cfg: WCfg, state: State, keys: Vec<KeyId>) -> RecoveryObs {
         }
     }
     let _ = w.close().await;
+    no_harm_step("close", &mut snap, &dir, &mut obs.no_harm);
+    ctl::with_ctl(|c| obs.no_harm.extend(crate::tap::append_only_violations_in(&c.log.borrow(), log_from, usize::MAX, &mut ever)));
     world::remove_dir(&dir);
     obs
 }
@@ -687,6 +734,7 @@ async fn batch_task(spec: CrashSpec, cfgs: Vec<WCfg>, batch: Vec<(usize, String,
                     recovered: BTreeMap::new(),
                     probe_ok: Ok(()),
                     panicked: Some(format!("{e}: {:?}", ctl::take_panic_msgs())),
+                    no_harm: Vec::new(),
                 },
             };
             out.push((si, ci, obs));
@@ -736,7 +784,7 @@ pub fn recovery_configs() -> Vec<WCfg> {
     v
 }
 
-pub fn run(specs: &[CrashSpec], threads: usize, max_states_per_history: usize) -> CrashResult {
+pub fn run(specs: &[CrashSpec], threads: usize, max_states_per_history: usize, oracle: CrashOracle) -> CrashResult {
     use std::sync::Arc;
     let mut stats = CrashStats::default();
     let mut violations: Vec<CrashViolation> = Vec::new();
@@ -886,7 +934,11 @@ pub fn run(specs: &[CrashSpec], threads: usize, max_states_per_history: usize) -
                         Ok(v) => {
                             for (wi, ci, obs) in v {
                                 let pos = batches[bi].iter().position(|x| *x == wi).unwrap();
-                                judged.push((wi, ci, judge_state(spec, &work[wi].cp, &cfgs[ci], &obs, &states[pos])));
+                                let fs = match oracle {
+                                    CrashOracle::Recovery => judge_state(spec, &work[wi].cp, &cfgs[ci], &obs, &states[pos]),
+                                    CrashOracle::NoHarm => obs.no_harm.iter().map(|v| finding("no_harm", v.clone())).collect(),
+                                };
+                                judged.push((wi, ci, fs));
                             }
                         }
                         Err(e) => {
